@@ -1032,3 +1032,153 @@ func ruleParserKeepsNoState(c *core.Ctx, rule, rel string, entries ...string) {
 		c.Pass(rule, rel+"/stateless", token.NoPos, fmt.Sprintf("%d functions reached from %s use no package-level variable that changes after initialisation (%d such variables in the package)", len(unit), strings.Join(entries, ", "), len(mutable)))
 	}
 }
+
+// ruleReferenceRecursionGuard: a type reference of the IDL (RefType) that
+// hands a question on to the type it designates (Signature, SignatureIDL,
+// Type, Reader, Marshal …) does so with the reference marked as being visited,
+// and refuses to resolve while it is marked.  Without that, `struct A a: A
+// end` makes the question go round for ever: a fatal stack overflow on a few
+// bytes of text, in the parser's own goroutine.
+func ruleReferenceRecursionGuard(c *core.Ctx, rule string) {
+	ref := c.Named("meta/idl", "RefType")
+	typeIface := c.Named("meta/signature", "Type")
+	if ref == nil || typeIface == nil {
+		c.Undecided(rule, "meta/idl.RefType", token.NoPos, "anchor not found")
+		return
+	}
+	st, _ := ref.Underlying().(*types.Struct)
+	isFlag := func(v ssa.Value) bool {
+		p := core.AccessPath(v)
+		if len(p.Fields) != 1 || st == nil {
+			return false
+		}
+		f := p.Fields[0]
+		b, ok := f.Type().Underlying().(*types.Basic)
+		if !ok || b.Kind() != types.Bool {
+			return false
+		}
+		for i := 0; i < st.NumFields(); i++ {
+			if st.Field(i) == f {
+				_, isParam := core.RootOf(v).(*ssa.Parameter)
+				return isParam
+			}
+		}
+		return false
+	}
+	marks := func(fn *ssa.Function) bool {
+		// stores true into a flag of the receiver, on every path
+		var sts []ssa.Instruction
+		for _, b := range fn.Blocks {
+			for _, in := range b.Instrs {
+				if s, ok := in.(*ssa.Store); ok {
+					if k, isConst := core.ConstBool(s.Val); isConst && k && isFlag(s.Addr) {
+						sts = append(sts, s)
+					}
+				}
+			}
+		}
+		if len(sts) == 0 {
+			return false
+		}
+		for _, r := range core.Returns(fn) {
+			if !core.MustPassBefore(fn, r, func(x ssa.Instruction) bool {
+				for _, s := range sts {
+					if s == x {
+						return true
+					}
+				}
+				return false
+			}) {
+				return false
+			}
+		}
+		return true
+	}
+	isRefMethod := func(f *ssa.Function) bool {
+		if f == nil || f.Signature.Recv() == nil {
+			return false
+		}
+		t := f.Signature.Recv().Type()
+		if p, ok := t.(*types.Pointer); ok {
+			t = p.Elem()
+		}
+		return types.Identical(t, ref)
+	}
+	n := 0
+	for _, fn := range srcFuncsOfPkg(c, "meta/idl") {
+		if fn.Parent() != nil || !isRefMethod(fn) {
+			continue
+		}
+		for i, call := range core.Calls(fn) {
+			cc := call.Common()
+			if !cc.IsInvoke() || !types.Identical(cc.Value.Type(), typeIface) {
+				continue
+			}
+			// the designated type: the first result of a lookup
+			lk, idx := core.CallResult(core.Canon(cc.Value))
+			if lk == nil || idx > 0 {
+				continue
+			}
+			in, ok := call.(*ssa.Call)
+			if !ok {
+				continue
+			}
+			// only where the lookup succeeded: what is done with the (nil) type of a failed
+			// lookup is another matter
+			isLkErr := func(v ssa.Value) bool {
+				e, ok := core.Canon(v).(*ssa.Extract)
+				return ok && e.Tuple == ssa.Value(lk) && e.Index == 1
+			}
+			if !core.Guarded(fn, in, core.Eq(isLkErr, core.IsNilConst)) {
+				continue
+			}
+			n++
+			key := fmt.Sprintf("meta/idl.RefType.%s/delegates:%s#%d", fn.Name(), cc.Method.Name(), i)
+			// (1) the lookup refuses while the reference is being visited
+			refuses := false
+			if h := lk.Call.StaticCallee(); h != nil && isRefMethod(h) && len(h.Blocks) > 0 {
+				refuses = true
+				nOK := 0
+				for _, r := range core.Returns(h) {
+					if errorReturnConst(r) {
+						continue
+					}
+					nOK++
+					if !core.Guarded(h, r, core.IsFalse(isFlag)) {
+						refuses = false
+					}
+				}
+				if nOK == 0 {
+					refuses = false
+				}
+			} else if core.Guarded(fn, in, core.IsFalse(isFlag)) {
+				refuses = true
+			}
+			// (2) the reference is marked before the question is handed on
+			marked := core.MustPassBefore(fn, in, func(x ssa.Instruction) bool {
+				if s, ok := x.(*ssa.Store); ok {
+					if k, isConst := core.ConstBool(s.Val); isConst && k && isFlag(s.Addr) {
+						return true
+					}
+				}
+				if c2, ok := x.(*ssa.Call); ok {
+					if h := c2.Call.StaticCallee(); h != nil && isRefMethod(h) && len(h.Blocks) > 0 && marks(h) {
+						return true
+					}
+				}
+				return false
+			})
+			switch {
+			case !refuses:
+				c.Fail(rule, key, in.Pos(), "the reference is resolved and the question handed on to the designated type without a test that this reference is not already being visited: a type that refers to itself (struct A a: A end) recurses until the stack overflows (fatal, not recoverable) on a few bytes of IDL text")
+			case !marked:
+				c.Fail(rule, key, in.Pos(), "the question is handed on to the designated type without the reference having been marked as being visited: the test that refuses a recursive type never fires")
+			default:
+				c.Pass(rule, key, in.Pos(), "marked as being visited while the designated type answers; resolution refused while marked")
+			}
+		}
+	}
+	if n == 0 {
+		c.Undecided(rule, "meta/idl.RefType", ref.Obj().Pos(), "no method of RefType hands a question on to the type it designates: the rule cannot see how references are followed")
+	}
+}
